@@ -109,7 +109,7 @@ def _gen_ty(r, depth, cb):
         return r.choice([["num", r.choice(NUMS)], ["none"], ["app", "bool", []], ["app", "str", []],
                          ["app", "S0", []], ["app", "Lin", []], ["tuple", []]])
     if c < 0.5:
-        n = r.choice([0, 1, 1, 1, 2, 2, 3])
+        n = r.choice([0, 2, 2, 2, 3, 3, 4])      # 1-tuples are outside the partial theorem (known finding)
         return ["tuple", [gen_ty(r, depth - 1, check_bounds=cb) for _ in range(n)]]
     name = r.choice(["array", "frozenarray", "Option", "Option", "Box", "Box", "Pair", "Vec", "Cp", "Sz"])
     args = []
@@ -117,7 +117,14 @@ def _gen_ty(r, depth, cb):
         if p[0] == "nat":
             args.append(["nat", r.choice([0, 1, 2, 3, 7, 10, 42, 100, 2 ** 64])])
         else:
-            args.append(gen_ty(r, depth - 1, p[1], p[2], cb))
+            a = gen_ty(r, depth - 1, p[1], p[2], cb)
+            for _ in range(20):   # a sole tuple argument is outside the partial theorem (known finding)
+                if not (len(ENV[name][0]) == 1 and a[0] == "tuple"):
+                    break
+                a = gen_ty(r, depth - 1, p[1], p[2], cb)
+            else:
+                a = ["num", "int"]
+            args.append(a)
     return ["app", name, args]
 
 
@@ -408,8 +415,14 @@ def run(ctx):
 
     per_kind = {}
 
+    known_hits = 0
+
     def specfail(key, what, detail):
-        nonlocal spec_fail
+        nonlocal spec_fail, known_hits
+        if ctx.is_known(key) is not None:      # refuted-theorem witnesses kept in the corpus
+            known_hits += 1
+            ctx.report(key, "counterexample", what, detail)
+            return
         spec_fail += 1
         k = key.split(":")[0]
         per_kind[k] = per_kind.get(k, 0) + 1
@@ -431,7 +444,9 @@ def run(ctx):
             if c[1][0] in ("tuple", "app") and (c[1][1] if c[1][0] == "tuple" else c[1][2]):
                 nontrivial.add(json.dumps(c[1]))
             # specification: a well-formed first-order type reads back as itself
-            if wf_py and not x["same"]:
+            safe_py = _safe(c[1])
+            stats["rt_safe"] = stats.get("rt_safe", 0) + (wf_py and safe_py)
+            if wf_py and safe_py and not x["same"] or (wf_py and not safe_py and not x["same"] and i < n_corpus):
                 specfail(f"roundtrip:{x['str']}", "print_parse_roundtrip: str(ty) does not read back as ty",
                          {"type": c[1], "printed": x["str"], "read_back": x["back"], "error": x["err"],
                           "expected": "type_from_ast(ast.parse(str(ty)).body[0].value) == ty",
@@ -502,7 +517,7 @@ def run(ctx):
     samples = [{"case": cases[j], "impl": res[j]} for j in (n_corpus, n_corpus + n_rt + 1, len(cases) - 1) if j < len(cases)]
     cov = proof_coverage(
         info, "make -f Makefile.C31 C31/Props.vo && coqc C31/Props.v (Print Assumptions)",
-        ["Coq 8.16.1 kernel (vm_compute in Examples and in num_name_plain)",
+        ["Coq 8.16.1 kernel (vm_compute in Examples, in print_parse_roundtrip_refuted and in num_name_plain)",
          "props/C31/tr_printer.py: template matching of every TypePrinter method (fail-closed), extraction of the string literals; "
          "reading of a printed string as its token list (check lexer, compared with Python's tokenize on every printed type)",
          "hand-written model coq/C31/Model.v of TypePrinter._visit*, Python's expression grammar on NAME NUMBER ( ) [ ] , "
@@ -511,7 +526,7 @@ def run(ctx):
         evaluations=len(cases), distinct_nontrivial=len(nontrivial),
         rule="rt: non-empty tuple or applied definition; toks: Python accepts the stream as an expression of the fragment; fun: at least two distinct variables printed",
         traces_validated_against_impl=len(cases) if model is not None else 0,
-        disagreements=disagreements, spec_failures=spec_fail, case_counts=stats, constructor_histogram=hist,
+        disagreements=disagreements, spec_failures=spec_fail, known_finding_witnesses_replayed=known_hits, case_counts=stats, constructor_histogram=hist,
         generated_table=tinfo, samples=samples, notes=ctx.notes)
     return ctx.finish(LEVEL, cov, [
         "a printed string is identified with its token list; blanks are irrelevant to Python's tokenizer",
@@ -577,3 +592,13 @@ _NONVAR = set(ENV) | {"int", "nat", "float", "tuple", "None", "forall", "True", 
 
 def _is_var_token(tok):
     return (tok[0] == "?" or tok[0].isalpha() or tok[0] == "_") and tok not in _NONVAR
+
+
+def _safe(t):
+    """precondition of print_parse_roundtrip_partial: no 1-tuple, no sole tuple argument"""
+    k = t[0]
+    if k == "tuple":
+        return len(t[1]) != 1 and all(_safe(x) for x in t[1])
+    if k == "app":
+        return not (len(t[2]) == 1 and t[2][0][0] == "tuple") and all(_safe(x) for x in t[2])
+    return True
